@@ -52,17 +52,15 @@ Proof. exact match_route_total_refuted. Qed.
 Print Assumptions C14_match_route_total_refuted.
 
 (** outside the four known classes, for every route table (any nesting of tuples and of
-    routes, any number of siblings) and every request path: the router matches exactly
-    when the table does, and it does not panic.
-    PARTIAL in one respect: stated for RouteDefs without a base path ([None]); the model
-    covers bases and the correspondence run exercises them, the proof does not. *)
-Theorem C14_match_iff_flat_except_known_partial :
-  forall rs p,
+    routes, any number of siblings), with or without base path, and every request path:
+    the router matches exactly when the table does, and it does not panic *)
+Theorem C14_match_iff_flat_except_known :
+  forall base rs p,
     wf_tree rs = true -> wf_routes rs = true -> starts_with_slash p = true ->
-    known_class None rs p = false ->
-    matches None rs p = flat_any None rs p /\ match_route None rs p <> MPanic.
-Proof. exact match_iff_flat_nobase. Qed.
-Print Assumptions C14_match_iff_flat_except_known_partial.
+    known_class base rs p = false ->
+    matches base rs p = flat_any base rs p /\ match_route base rs p <> MPanic.
+Proof. exact match_iff_flat_except_known. Qed.
+Print Assumptions C14_match_iff_flat_except_known.
 
 (** ---- first matching definition in declaration order wins ---- *)
 Theorem C14_first_match_wins :
